@@ -123,6 +123,7 @@ class World {
     uint64_t cost_lo = 200, cost_hi = 3000;
     uint64_t lat_lo = 20000, lat_hi = 200000;
     size_t rxq_cap = 64, canq_cap = 256;
+    double can_read0_p = 0;  // cooperative fault point: read() on a CAN socket returns 0 (the talker explicitly retries on 0)
     uint64_t step_budget = 20000000ULL;
     uint64_t call_budget = 100000ULL;
     std::function<void(Node &)> on_call_budget;
